@@ -906,6 +906,8 @@ class Server(Node):
 
         self.increment_affinity([app.affinity.name])
         app.server = self.name
+        # The app has a placement again: it is no longer evicted.
+        app.evicted = False
         if self.parent:
             self.parent.adjust_capacity_down(prev_capacity)
 
